@@ -7,12 +7,16 @@ import (
 	"fmt"
 	"os"
 
+	"verif/harness/comp/autotune"
+	"verif/harness/comp/fec"
 	"verif/harness/comp/ring"
 	"verif/harness/internal/hx"
 )
 
 var components = map[string]func(o *hx.Out, g *hx.Rng, tier string){
 	"ring": ring.Run,
+	"fec":  fec.Run,
+	"autotune": autotune.Run,
 }
 
 func main() {
